@@ -186,13 +186,24 @@ def _piecewise(ctx, name, f, p, rng):
     pts = [0.3, -0.3, 1.6, -1.6, 2.45, -2.45, 17.2, -0.8]
     for x in pts:
         if name == 'clip':
-            for (lo, hi) in ((-1.0, 1.0), (0.5, 2.0), (-3.0, -2.0)):
+            for (lo, hi) in ((-1.0, 1.0), (0.5, 2.0), (-3.0, -2.0), (0.0, 1.0), (-2.0, 0.0), (0, 3), (np.float64(0.0), np.float64(2.0)), (-np.inf, 0.5), (0.25, np.inf)):
                 for n in range(0, p['nmax'] + 1):
                     got = np.asarray(f(lo, hi, np.array([x]), n=n))[0]
                     ref = float(np.clip(x, lo, hi)) if n == 0 else (float(lo < x < hi) if n == 1 else 0.0)
                     if got != ref:
                         ctx.violation('clip:value', {'x': x, 'lo': lo, 'hi': hi, 'n': n, 'got': float(got), 'want': ref}); return
                     ctx.ok('clip', ('clip', lo, hi, n, x))
+            # bounds given as arrays (one interval per point), as numpy.clip accepts them
+            lo_a = np.array([-1.0, 0.0, 0.5]); hi_a = np.array([0.0, 2.0, 0.75]); xa = np.array([x, x, x])
+            for n in range(0, p['nmax'] + 1):
+                try:
+                    got = np.asarray(f(lo_a, hi_a, xa.copy(), n=n))
+                except Exception as e:
+                    ctx.violation('clip:array-bounds:raises', {'x': x, 'n': n, 'error': repr(e)[:160]}); return
+                ref = np.clip(xa, lo_a, hi_a) if n == 0 else (((lo_a < xa) & (xa < hi_a)).astype(float) if n == 1 else np.zeros(3))
+                if got.shape != ref.shape or not np.array_equal(got, ref):
+                    ctx.violation('clip:array-bounds:value', {'x': x, 'n': n, 'got': got.tolist(), 'want': ref.tolist()}); return
+                ctx.ok('clip', ('clip', 'array-bounds', n, x))
             continue
         base = {'rint': np.rint, 'fix': np.fix, 'floor': np.floor, 'ceil': np.ceil, 'trunc': np.trunc,
                 'sign': np.sign, 'absolute': np.absolute}[name]
